@@ -725,4 +725,17 @@ end
 
 def Prog.size (p : Prog) : Nat := srcCores p.src + sizeSteps p.steps
 
+mutual
+  /-- cores the functor of a step will allocate if it is invoked (the inner pipeline it builds, to any depth) -/
+  def innerStep : Step → Nat
+    | .mk _ _ _ beh =>
+      (match beh with
+       | .async src _ steps => srcCores src + steps.length + innerSteps steps
+       | _ => 0)
+  def innerSteps : List Step → Nat
+    | [] => 0
+    | s :: ss => innerStep s + innerSteps ss
+end
+
+
 end Yaclib.Pipeline
